@@ -1,7 +1,7 @@
 (* C11 — Any input yields values or located errors, never a crash (the part the model can carry).  Statements only. *)
 From Coq Require Import ZArith NArith List.
 Import ListNotations.
-From AV Require Import model.Syntax model.Lexer model.Grammar model.Eval model.Run proofs.LexerProofs proofs.BuiltinProofs proofs.NoPanicProofs proofs.SpanProofs proofs.GrammarTotal proofs.QueryNoPanic.
+From AV Require Import model.Syntax model.Lexer model.Grammar model.Eval model.Run proofs.LexerProofs proofs.BuiltinProofs proofs.NoPanicProofs proofs.SpanProofs proofs.GrammarTotal proofs.QueryNoPanic proofs.NonZeroPowers proofs.NeverPanics model.Compound model.UnitTypes gen.Shipped.
 
 (* Every panic site of the Rust code that the model can express is an explicit [Panic] outcome: the debug assertion of
    Compound::new (1), builder misuse or running out of fuel (3), the debug assertion of round (4). *)
@@ -34,6 +34,24 @@ Proof. exact query_only_assertion. Qed.
 Theorem C11_release_query_never_panics : forall describe facts (s : list chr) r w,
   In r (fst (query false describe facts s)) -> r <> Panic w.
 Proof. exact release_query_never_panics. Qed.
+
+(* The debug assertion itself cannot fire. A unit is well formed when it has no zero power and consists of units of the tables
+   ([wfu]); Compound::mul of well-formed units is well formed -- the delicate step is reconstruct putting back a derived unit that is
+   already there: the two contributions cannot cancel because the base entries a derived unit is matched against never change
+   sign -- every unit the unit parser builds is well formed, and so is the unit of every shipped constant. Hence: for every text,
+   both build modes and every database whose constants carry well-formed units, NO result of a query is a panic. *)
+Theorem C11_mul_no_zero_powers : forall (self other : compound) n lhs rhs c l r, n <> 0%Z ->
+  NZ self -> NZ other -> dimensional self -> dimensional other -> mul self other n lhs rhs = Some (c, l, r) -> NZ c.
+Proof. exact mul_NZ. Qed.
+Theorem C11_unit_parser_well_formed : forall children c, eval_unit children = Ok c -> wfu c.
+Proof. exact eval_unit_wfu. Qed.
+Theorem C11_shipped_units_well_formed :
+  forallb (fun k : list (list N) * (Z * Z) * compound * Z => let '(_, _, u, _) := k in wfu_b u) shipped = true.
+Proof. exact shipped_units_wfu. Qed.
+Theorem C11_query_never_panics : forall debug describe facts (s : list chr) r w,
+  (forall p id v u, db_lookup facts p = Found id v u -> wfu u) ->
+  In r (fst (query debug describe facts s)) -> r <> Panic w.
+Proof. exact query_never_panics. Qed.
 
 (* every error a query reports is located inside the input: its range runs from the start of a syntax node to the end of one,
    0 <= start <= end <= byte length of the text (node boundaries are sums of the byte lengths of whole tokens, which are
